@@ -120,7 +120,7 @@ def spec_nontrivial(spec):
     if len(keys) != len(set(keys)) or len(lens) > 1:
         return True
     for v in spec.p.values():
-        if v is not ABSENT and v is not False and v != 0 and v != ():
+        if v is not ABSENT and v is not False and v is not None and v != 0 and v != ():
             return True
     return any(f is not None for f in spec.fns)
 
